@@ -5,6 +5,7 @@ package harness
 import (
 	"fmt"
 	"math"
+	"math/big"
 	"testing"
 
 	"github.com/tidwall/geojson/geometry"
@@ -502,7 +503,13 @@ func c19GenDbl(t *rapid.T) c19Dbl {
 		c.S = [4]F{F(ox), F(oy), F(ox + 8*vx), F(oy + 8*vy)}
 		c.T = [4]F{F(ox + k1*vx), F(oy + k1*vy), F(ox + k2*vx), F(oy + k2*vy)}
 		if rapid.Bool().Draw(t, "tjunction") {
-			c.T[2], c.T[3] = genDbl(t, "tjx"), genDbl(t, "tjy")
+			// a T-junction: the far end is an arbitrary lattice point, and everything is kept small enough for the
+			// products to be exact (otherwise "starts on S" is not something float arithmetic owes an answer to:
+			// a far end that happens to lie almost on the line of S makes the two directions parallel after rounding)
+			vx = float64(rapid.Int64Range(-(1<<20), 1<<20).Draw(t, "tjvx"))
+			vy = float64(rapid.Int64Range(-(1<<20), 1<<20).Draw(t, "tjvy"))
+			c.S = [4]F{F(ox), F(oy), F(ox + 8*vx), F(oy + 8*vy)}
+			c.T = [4]F{F(ox + k1*vx), F(oy + k1*vy), F(rapid.Int64Range(-(1<<24), 1<<24).Draw(t, "tjx")), F(rapid.Int64Range(-(1<<24), 1<<24).Draw(t, "tjy"))}
 		}
 		c.Multiples = true
 	} else if rapid.IntRange(0, 5).Draw(t, "axis") == 0 {
@@ -583,6 +590,36 @@ func c19CheckDbl(c c19Dbl) fw.Outcome {
 	return o
 }
 
+// c19MultiplesDecidable: the identity "T starts on S, so they intersect" is owed in two configurations only. Either all
+// four points are exactly collinear (decided in rational arithmetic): then every pair of products the kernels subtract
+// is equal as real numbers, hence rounds to the same double, and the answer rests on comparisons (integer ordinates
+// below 2^52, so that the differences themselves are exact).  Or all ordinates are integers below 2^25 in magnitude, so every difference and every product is exact, and T's first point lies exactly
+// on S.  A far end given as an arbitrary double (0.30000000000000004) can lie so close to the line of S that the
+// rounded directions are parallel; nothing in the property promises an answer there.
+func c19MultiplesDecidable(s, u geometry.Segment) bool {
+	rat := func(v float64) *big.Rat { r := new(big.Rat); r.SetFloat64(v); return r }
+	orient := func(a, b, p geometry.Point) int {
+		l := new(big.Rat).Mul(new(big.Rat).Sub(rat(b.X), rat(a.X)), new(big.Rat).Sub(rat(p.Y), rat(a.Y)))
+		r := new(big.Rat).Mul(new(big.Rat).Sub(rat(b.Y), rat(a.Y)), new(big.Rat).Sub(rat(p.X), rat(a.X)))
+		return l.Cmp(r)
+	}
+	if !s.Rect().ContainsPoint(u.A) || orient(s.A, s.B, u.A) != 0 {
+		return false
+	}
+	// integers throughout: below 2^52 every difference is exact (enough for the collinear configuration), below 2^25
+	// every product is exact as well
+	limit := float64(1 << 25)
+	if orient(s.A, s.B, u.B) == 0 && s.A != s.B {
+		limit = 1 << 52
+	}
+	for _, v := range []float64{s.A.X, s.A.Y, s.B.X, s.B.Y, u.A.X, u.A.Y, u.B.X, u.B.Y} {
+		if v != math.Trunc(v) || math.Abs(v) > limit {
+			return false
+		}
+	}
+	return true
+}
+
 func c19CheckDblRaw(c c19Dbl) fw.Outcome {
 	pt := func(x, y F) geometry.Point { return geometry.Point{X: float64(x), Y: float64(y)} }
 	s := geometry.Segment{A: pt(c.S[0], c.S[1]), B: pt(c.S[2], c.S[3])}
@@ -618,7 +655,10 @@ func c19CheckDblRaw(c c19Dbl) fw.Outcome {
 			return fw.Failf(label, "Segment%v and Segment%v share an end point but IntersectsSegment = %v / %v", s, u, s.IntersectsSegment(u), u.IntersectsSegment(s))
 		}
 	}
-	if c.Multiples {
+	if c.Multiples && !c19MultiplesDecidable(s, u) {
+		// (a replayed or shrunk case outside the two configurations the identity is stated for)
+		label = "doubles/multiples-undecidable"
+	} else if c.Multiples {
 		label = "doubles/collinear-multiples"
 		if !s.IntersectsSegment(u) || !u.IntersectsSegment(s) {
 			return fw.Failf(label, "Segment%v starts on Segment%v (integer multiples of one vector from a common origin) but IntersectsSegment = %v / %v", u, s, s.IntersectsSegment(u), u.IntersectsSegment(s))
